@@ -131,12 +131,12 @@ fn nt_c04(_m: &Model, classes: &std::collections::HashSet<&'static str>) -> bool
 }
 
 fn case_small(t: &mut Tape, st: &mut Stats) -> Verdict {
-    let p = gen_program(t, GenCfg { functions: false, failures: false, max_depth: 5, max_stmts: 30, long_loops: false, probe_conditions: true });
+    let p = gen_program(t, GenCfg { functions: false, failures: false, max_depth: 5, max_stmts: 30, long_loops: false, probe_conditions: true, lib_calls: true });
     run_program(&p, t, st, "C04", nt_c04)
 }
 
 fn case_large(t: &mut Tape, st: &mut Stats) -> Verdict {
-    let p = gen_program(t, GenCfg { functions: false, failures: false, max_depth: 8, max_stmts: 120, long_loops: false, probe_conditions: false });
+    let p = gen_program(t, GenCfg { functions: false, failures: false, max_depth: 8, max_stmts: 120, long_loops: false, probe_conditions: false, lib_calls: false });
     run_program(&p, t, st, "C04", nt_c04)
 }
 
@@ -165,7 +165,7 @@ fn case_long_loops(t: &mut Tape, st: &mut Stats) -> Verdict {
         }
         return v;
     }
-    let p = gen_program(t, GenCfg { functions: false, failures: false, max_depth: 4, max_stmts: 10, long_loops: true, probe_conditions: false });
+    let p = gen_program(t, GenCfg { functions: false, failures: false, max_depth: 4, max_stmts: 10, long_loops: true, probe_conditions: false, lib_calls: false });
     run_program_bounded(&p, t, st, "C04", |m, _| m.classes.contains("while-ran-100-times"), 12_000)
 }
 
@@ -185,7 +185,7 @@ pub fn property() -> Property {
                     Tier::Thorough => Plan::Random { cases: 6_000_000, max_len: 800 },
                 },
                 case: case_small,
-                min_classes: &[("two-block-kinds-nested", 2000), ("zero-iteration-loop", 2000), ("empty-body", 2000), ("canonical-name-keyword", 2000), ("block-specific-end", 2000), ("same-block-executed-3-times", 1000), ("elseif-chain", 2000), ("x-y-x-nesting", 300), ("mixed-generic-and-specific-end", 2000), ("condition-command-argument-padded-with-blanks", 2000)],
+                min_classes: &[("two-block-kinds-nested", 2000), ("zero-iteration-loop", 2000), ("empty-body", 2000), ("canonical-name-keyword", 2000), ("block-specific-end", 2000), ("same-block-executed-3-times", 1000), ("elseif-chain", 2000), ("x-y-x-nesting", 300), ("mixed-generic-and-specific-end", 2000), ("condition-command-argument-padded-with-blanks", 2000), ("nested-script-command-inside-a-loop-body", 2000)],
             },
             Section {
                 name: "large-programs",
